@@ -494,8 +494,18 @@ func c11r4(p *Program, r *Report) {
 		if !ok {
 			return true
 		}
-		inner, ok := ast.Unparen(ix.X).(*ast.IndexExpr)
-		if !ok || !isIdentOf(info, inner.X, hostsObj) {
+		var inner ast.Expr
+		if in2, ok := ast.Unparen(ix.X).(*ast.IndexExpr); ok && isIdentOf(info, in2.X, hostsObj) {
+			inner = in2
+		} else if lid, ok := ast.Unparen(ix.X).(*ast.Ident); ok {
+			// layer := hosts[k]; layer[...]
+			if d := localDef(info, rr, lid); d != nil {
+				if in3, ok := ast.Unparen(d).(*ast.IndexExpr); ok && isIdentOf(info, in3.X, hostsObj) {
+					inner = lid
+				}
+			}
+		}
+		if inner == nil {
 			return true
 		}
 		found = true
@@ -529,6 +539,31 @@ func c11r4(p *Program, r *Report) {
 	})
 	if !found {
 		r.Unresolved("roundRobbin: no hosts[layer][i] access")
+	}
+	// the generator reports exhaustion (nil) only after every layer was visited: an empty nearer layer must not
+	// end the walk while farther layers still hold hosts
+	for _, lit := range funcLitsIn(rr.Decl.Body) {
+		g := p.GraphOfLit(rr, lit)
+		facts := g.GuardFacts()
+		for _, e := range g.Exits() {
+			rs, ok := e.Node.(*ast.ReturnStmt)
+			if !ok || len(rs.Results) != 1 || !isNil(info, rs.Results[0]) {
+				continue
+			}
+			f, _ := facts.Before(rs)
+			allVisited := false
+			for atom, v := range f.m {
+				a := strings.ReplaceAll(atom, " ", "")
+				if v && (strings.Contains(a, "==len("+hostsObj.Name()+")") || strings.Contains(a, "len("+hostsObj.Name()+")==")) {
+					allVisited = true
+				}
+				if !v && strings.HasSuffix(a, "<len("+hostsObj.Name()+")") && !strings.Contains(a, "&&") {
+					allVisited = true
+				}
+			}
+			r.Check(allVisited, rs, "roundRobbin reports exhaustion only after the last layer", "return nil dominated by layer == len(hosts)",
+				"the generator can return nil (no more hosts) while layers remain: an empty nearer layer (no live local hosts) ends the walk and the remote hosts are never offered")
+		}
 	}
 	// Pick functions pass the atomic counter unreduced
 	n := 0
